@@ -117,7 +117,7 @@ def gen_modular(rng, kind):
 
 class C09(Prop):
     id = 'C09'
-    rule_added = '15% with declared constants as interval bounds next to a suffixed begin; dense: 12% two named assertions whose intervals differ only in the unit.'
+    rule_added = "15% with declared constants as interval bounds next to a suffixed begin; dense: 12% two named assertions whose intervals differ only in the unit. 15% under an interface-aware semantics on both forms; 6% C06's shared-term template."
     rule = ('a generated formula is decomposed at random into 1..4 named sub-specifications (nested, every occurrence '
             'of a chosen sub-formula replaced, so some are referenced 2-3 times; stateful sub-specs included) and up to '
             '2 declared constants; the modular spec (add_sub_spec or several assertions in one text) and the inlined '
